@@ -2,7 +2,8 @@ import D2V.Drv.Common
 import D2V.Drv.SemX
 import D2V.Model.Glob
 import D2V.Model.GlobExpand
-open Lean D2V.Drv D2V.Drv.SemX D2V.SemAst D2V.Glob D2V.GlobExpand
+import D2V.Model.GlobSem
+open Lean D2V.Drv D2V.Drv.SemX D2V.SemAst D2V.Glob D2V.GlobExpand D2V.GlobSem
 
 /-!
   C12 driver.
@@ -90,6 +91,31 @@ def classOf (body : Body) : String :=
   else if duplicateGlob body then ":duplicate-glob"
   else if mapGlobOverlap body then ":map-glob-overlap" else ""
 
+/-! one-block attribute-glob programs: the operational model `GlobSem.run` against the compiled graph -/
+
+def attrOfKey : Key → Option String
+  | [] => some "Label"
+  | [a] => if a.q == 0 && a.s == "shape" then some "Shape" else none
+  | [s, a] => if s.q == 0 && s.s == "style" && a.q == 0 && a.s == "fill" then some "style.Fill" else none
+  | _ => none
+
+def gstmtOf : Stmt → Option GStmt
+  | .field 0 (n :: rest) none v =>
+    if n.q != 0 || isKw n then none else
+    match attrOfKey rest, v with
+    | some "Label", .none => if segHasGlob n then none else some (.decl n.s)
+    | some "Label", .null => if segHasGlob n then none else some (.del n.s)
+    | some k, .scal sv =>
+      match sv.text? with
+      | some t => if sv.q != 0 then none else if segHasGlob n then some (.glob n.s k t) else some (.set n.s k t)
+      | none => none
+    | _, _ => none
+  | _ => none
+
+/-- the matcher of the tree under test (`**` in a single block selects every object) -/
+def implMatch (pat name : String) : Bool :=
+  if pat == "**" then true else matchPatternCur (bytesOf name) (patternOf pat) == .ok true
+
 def xform (j : Json) : Except String Json := do
   let body ← decBody (← getObj j "body")
   let p := renderBody 0 body
@@ -146,6 +172,14 @@ def handleC12 (j : Json) : Except String Verdict := do
     | .ok q =>
       if renderBody 0 q != (← getStr o "qtext") then return .mismatch "xform-drift" "q"
       let gq ← decOutcome (← getObj o "gq")
+      -- model vs implementation on one-block attribute-glob programs
+      match body.mapM gstmtOf, gp with
+      | some prog, .graph a =>
+        let c := (run implMatch prog).c
+        let exp := sortEnts (c.map fun (n, av) => { id := n, attrs := expectedAttrs n av })
+        if exp != a.objs then
+          return .mismatch "glob-model" s!"GlobSem.run {repr exp} vs compiled {repr a.objs}"
+      | _, _ => pure ()
       match gp, gq with
       | .graph a, .graph b =>
         match boardDiff "root" a b with
